@@ -13,7 +13,7 @@ ok, out = check.ensure_makefile()
 print(out)
 sys.exit(0 if ok else 1)
 PY
-(cd coq && timeout 7200 make -j16 2>&1 | grep -v "^Closed under" | tail -30)
+(cd coq && timeout 7200 make -k -j16 2>&1 | grep -v "^Closed under" | tail -30)
 cp /repo/Cargo.lock harness/Cargo.lock
 (cd harness && timeout 7200 cargo build --release --offline --bins 2>&1 | tail -5)
 echo setup done
